@@ -28,7 +28,7 @@ from vlib.runner import Result, rng_for
 
 PROPERTY = 'C07'
 LEVEL = 'exploration'
-RULE = ('programs of <=4 NumPy-API operations (83 HANDLED_FUNCTIONS entries + __getitem__) over constants, Arguments and topology leaves, '
+RULE = ('programs of <=4 NumPy-API operations (all 78 function.HANDLED_FUNCTIONS entries + Array.__getitem__; helper index/shift nodes may add depth) over constants, Arguments and topology leaves, '
         'generated per (environment, target operation, index) from the seed: a systematic part (every operation as the last call, in each of 6 '
         'environments: function.eval without sample, plain, mixed-element, boundary, 2-space and 3-space product samples), random compositions, '
         'hostile corners (out-of-range slices, several index arrays, negative transpose axes, abs of bool, interp with int fp and float left/right) '
@@ -45,11 +45,15 @@ ASSUMPTIONS = [
 BUDGET_S = {'quick': 105, 'thorough': 1500}
 GRACE_S = 60
 
-SYS_PER = {'quick': 4, 'thorough': 60}          # targeted cases per (operation, environment)
-RAND = {'quick': 2600, 'thorough': 60000}       # random compositions
-REJECT_PER = {'quick': 14, 'thorough': 150}     # rejection cases per shape-sensitive operation
-HOSTILE_PER = {'quick': 3, 'thorough': 30}      # per (hostile corner, environment)
+SYS_PER = {'quick': 3, 'thorough': 40}          # targeted cases per (operation, environment)
+RAND = {'quick': 2000, 'thorough': 36000}       # random compositions
+REJECT_PER = {'quick': 12, 'thorough': 120}     # rejection cases per shape-sensitive operation
+HOSTILE_PER = {'quick': 3, 'thorough': 20}      # per (hostile corner, environment)
+HELPER_UNITS = {'quick': 4, 'thorough': 30}     # x100 direct calls of function.broadcast_shapes / broadcast_arrays / typecast_arrays
 CHUNK = 40
+# evaluation on product samples is 5-10x more expensive (nested point loops in the generated code): fewer cases there
+ENV_WEIGHT = {'const': 1.5, 'plain': 1., 'mixed': 1., 'boundary': 1., 'prod2': .75, 'prod3': .5}
+RAND_ENVS = ['const', 'plain', 'mixed', 'boundary', 'prod2', 'prod3', 'const', 'plain', 'boundary', 'prod2', 'mixed', 'plain']
 
 FINDINGS = {
     # id: (what, enabled).  A disabled finding removes the corresponding hostile corner from the workload.
@@ -60,8 +64,9 @@ FINDINGS = {
     'C07-transpose-negative-axes': ('numpy.transpose(f, axes) with a negative entry in axes builds but fails with AssertionError at evaluation', True),
     'C07-abs-bool': ('numpy.abs of a bool function array builds (dtype bool) but evaluation raises UFuncTypeError', True),
     'C07-interp-int-fp-truncates-left-right': ('numpy.interp(f, xp, fp, left=, right=) with integer fp truncates float left/right to int', True),
-    'C07-matmul-vdot-singleton-broadcast': ('numpy.matmul / numpy.vdot accept a contraction axis of length 1 against length n (NumPy rejects): '
-                                            'the singleton is broadcast', True),
+    'C07-matmul-singleton-contraction': ('numpy.matmul accepts a contraction axis of length 1 against length n (NumPy rejects): the singleton is broadcast', True),
+    'C07-vdot-broadcasts': ('numpy.vdot broadcasts its operands instead of flattening them: shapes (n,) and (1,) are accepted (NumPy rejects) and '
+                            'equal-size operands of different shape such as (1,n),(n,1) give the sum over the outer product instead of the dot product', True),
     'C07-eig-nonsquare-accepted': ('numpy.linalg.eig / eigh accept a non-square operand when the expression is built; it only fails at evaluation', True),
     'C07-det-inv-int': ('numpy.linalg.det / inv of an integer function array build (dtype float) but evaluation raises AssertionError '
                         '(evaluable.Determinant/Inverse demand a float operand; no typecast)', True),
@@ -80,24 +85,28 @@ def plan(tier, seed):
     from vlib.c07_ops import OPS
     from vlib.c07_env import ENV_NAMES
     from vlib.c07_gen import SHAPE_SENSITIVE, HOSTILE
+    # cheap and deciding units first (helpers, rejection, hostile corners), then the systematic part, random compositions last:
+    # if a loaded machine hits the deadline, it is the random tail that is cut (and reported)
     units = []
+    for k in range(HELPER_UNITS[tier]):
+        units.append(dict(kind='helpers', index=k, n=100))
+    for k in range(0, len(SHAPE_SENSITIVE), 4):
+        units.append(dict(kind='reject', ops=SHAPE_SENSITIVE[k:k + 4], n=REJECT_PER[tier]))
+    for h in HOSTILE:
+        units.append(dict(kind='hostile', which=h, n=HOSTILE_PER[tier]))
     names = sorted(OPS)
+    sysunits = []
     for env in ENV_NAMES:
         for k in range(0, len(names), 6):
-            units.append(dict(kind='sys', env=env, ops=names[k:k + 6], n=SYS_PER[tier]))
+            sysunits.append(dict(kind='sys', env=env, ops=names[k:k + 6], n=max(1, int(round(SYS_PER[tier] * ENV_WEIGHT[env])))))
+    rng = rng_for(seed, 'c07', 'plan')
+    units += [sysunits[i] for i in rng.permutation(len(sysunits))]
     nr = RAND[tier]
     i = 0
     while i < nr:
         units.append(dict(kind='rand', start=i, stop=min(nr, i + CHUNK)))
         i += CHUNK
-    for k in range(0, len(SHAPE_SENSITIVE), 4):
-        units.append(dict(kind='reject', ops=SHAPE_SENSITIVE[k:k + 4], n=REJECT_PER[tier]))
-    for h in HOSTILE:
-        units.append(dict(kind='hostile', which=h, n=HOSTILE_PER[tier]))
-    # interleave so that every shard gets a mix
-    rng = rng_for(seed, 'c07', 'plan')
-    order = rng.permutation(len(units))
-    return [units[i] for i in order]
+    return units
 
 
 # ---------------------------------------------------------------------------------------------------------------------
@@ -113,8 +122,11 @@ def classify(prog, monitor, nodeid):
         return 'C07-optimized-mode-only'
     if prog.get('mode') == 'reject':
         pert = prog.get('perturbed') or {}
-        if op in ('matmul', 'vdot') and pert.get('singleton'):
-            return 'C07-matmul-vdot-singleton-broadcast'
+        shapes = [_shape_of(prog, byid[a]) for a in s['args']]
+        if op == 'matmul' and len(shapes) == 2 and all(shapes) and 1 in (shapes[0][-1], shapes[1][-1 if len(shapes[1]) == 1 else -2]):
+            return 'C07-matmul-singleton-contraction'      # the contraction axis of one operand is a singleton that gets broadcast
+        if op == 'vdot' and len(shapes) == 2 and shapes[0] != shapes[1]:
+            return 'C07-vdot-broadcasts'
         if op in ('linalg.eig', 'linalg.eigh'):
             return 'C07-eig-nonsquare-accepted'
         return None
@@ -125,6 +137,8 @@ def classify(prog, monitor, nodeid):
         narr = sum(1 for it in params['items'] if isinstance(it, dict) and (('a' in it and len(it['a']['s']) >= 1) or 'r' in it))
         if monitor in ('shape', 'value') and narr >= 2:
             return 'C07-multi-index-array-outer'
+    if op == 'vdot' and monitor == 'value' and _shape_of(prog, byid[s['args'][0]]) != _shape_of(prog, byid[s['args'][1]]):
+        return 'C07-vdot-broadcasts'
     if op == 'transpose' and monitor == 'evaluation failed' and s['form'] in ('func', 'method') and any(a < 0 for a in params.get('axes', [])):
         return 'C07-transpose-negative-axes'
     if op == 'absolute' and monitor == 'evaluation failed' and _kind_of(prog, byid[s['args'][0]]) == 'b':
@@ -230,6 +244,15 @@ def run_units(units, ctx):
     from nutils import debug_flags
     res = Result()
     res.add('debug_flags', f'lower={bool(debug_flags.lower)} sparse={bool(debug_flags.sparse)} evalf={bool(debug_flags.evalf)}')
+    # the catalogue is compared with the table of the tree under test: a handled function the catalogue does not know is 'uncovered'
+    from nutils import function
+    alias = {'divide': 'true_divide', 'remainder': 'mod'}
+    for f in function.HANDLED_FUNCTIONS:
+        n = ('linalg.' if 'linalg' in (getattr(f, '__module__', '') or '') else '') + f.__name__
+        n = alias.get(n, n)
+        res.add('handled', n)
+        if n not in c07_ops.OPS:
+            res.add('handled_not_in_catalogue', n)
     seed = ctx.seed
     for u in units:
         if ctx.expired():
@@ -241,6 +264,9 @@ def run_units(units, ctx):
             # a crash of the harness itself must not be mistaken for anything else
             res.note('HARNESS: ' + traceback.format_exc()[-900:])
             res.count('harness_errors')
+    for env in c07_env._cache.values():
+        for lname, detail in env.failures:
+            res.violation('leaf evaluation failed', dict(env=env.name, leaf=lname), f'{lname} alone on the {env.name} sample: {detail}')
     return res
 
 
@@ -265,7 +291,7 @@ def run_unit(u, seed, res, ctx):
             if ctx.expired():
                 res.count('cases_skipped_deadline')
                 continue
-            env = envs[i % len(envs)]
+            env = RAND_ENVS[i % len(RAND_ENVS)]
             key = ['rand', env, i]
             rng = rng_for(seed, 'c07', *key)
             case = c07_gen.generate(env, rng, res, nops=int(rng.choice([2, 3, 4, 4])))
@@ -286,11 +312,13 @@ def run_unit(u, seed, res, ctx):
                 if prog is None:
                     res.count('reject/not_generated')
                     continue
-                if prog['perturbed']['singleton'] and not FINDINGS['C07-matmul-vdot-singleton-broadcast'][1] and opname in ('matmul', 'vdot'):
+                if prog['perturbed']['singleton'] and ((opname == 'matmul' and not FINDINGS['C07-matmul-singleton-contraction'][1]) or (opname == 'vdot' and not FINDINGS['C07-vdot-broadcasts'][1])):
                     continue
                 case = c07_gen.execute_reject(prog, res)
                 finish(case, res, key)
                 res.count('cases/reject')
+    elif u['kind'] == 'helpers':
+        run_helpers(u, seed, res, ctx)
     elif u['kind'] == 'hostile':
         which = u['which']
         fid = {'oob_slice': 'C07-slice-bounds-not-clamped', 'multi_array': 'C07-multi-index-array-outer', 'transpose_negative': 'C07-transpose-negative-axes',
@@ -310,6 +338,86 @@ def run_unit(u, seed, res, ctx):
                 res.count('hostile/' + which)
 
 
+def run_helpers(u, seed, res, ctx):
+    """function.broadcast_shapes / broadcast_arrays / typecast_arrays against numpy.broadcast_shapes / result kind, on valid and
+    perturbed shape lists (these helpers sit under every elementwise operation, where broadcast_to re-checks and hides them)"""
+    import numpy
+    from nutils import function
+    from vlib.c07_gen import Gen
+    from vlib.c07_core import Case
+    PY = {'b': bool, 'i': int, 'f': float, 'c': complex}
+    for i in range(u['n']):
+        key = ['helpers', u['index'], i]
+        rng = rng_for(seed, 'c07', *key)
+        g = Gen(Case('const', Result()), rng)
+        base = g.rand_shape((0, 3))
+        shapes = [tuple(base)] + [tuple(g.compatible_shape(base)) for _ in range(int(rng.integers(1, 3)))]
+        perturbed = None
+        if rng.random() < .5:
+            cands = [(k, ax) for k, sh in enumerate(shapes) for ax, n in enumerate(sh) if n >= 2]
+            if cands:
+                k, ax = cands[int(rng.integers(len(cands)))]
+                sh = list(shapes[k])
+                sh[ax] += 1
+                shapes[k] = tuple(sh)
+                perturbed = [k, ax]
+        kinds = [str(rng.choice(list('bifc'))) for _ in shapes]
+        case = dict(key=key, helper='broadcast_shapes', shapes=[list(sh) for sh in shapes], kinds=kinds, perturbed=perturbed)
+        res.count('evaluations')
+        res.count('cases/helpers')
+        res.add('distinct', 'h' + repr((shapes, kinds)))
+        try:
+            expect = tuple(numpy.broadcast_shapes(*shapes))
+        except ValueError:
+            expect = None
+        res.count('helpers/numpy_rejects' if expect is None else 'helpers/numpy_accepts')
+        args = [function.Argument(f'h{k}', sh, PY[kd]) for k, (sh, kd) in enumerate(zip(shapes, kinds))]
+        for name, call in (('broadcast_shapes', lambda: tuple(function.broadcast_shapes(*shapes))),
+                           ('broadcast_arrays', lambda: tuple(set(tuple(a.shape) for a in function.broadcast_arrays(*args))))):
+            try:
+                got = call()
+            except Exception as e:
+                got = None
+            if name == 'broadcast_arrays' and got is not None:
+                got = got[0] if len(got) == 1 else ('different shapes', got)
+            if expect is None and got is not None:
+                res.violation('numpy-rejected shapes accepted at build', dict(case, helper=name), f'function.{name} accepts shapes {shapes} -> {got}; numpy.broadcast_shapes raises')
+            elif expect is not None and got is None:
+                res.count(f'helpers/{name}_refused_valid')
+            elif expect is not None and got != expect:
+                res.violation('shape', dict(case, helper=name), f'function.{name}{shapes} -> {got}, numpy gives {expect}')
+            else:
+                res.count('helpers/agree')
+        try:
+            tc = function.typecast_arrays(*args)
+            kinds_out = set({bool: 'b', int: 'i', float: 'f', complex: 'c'}.get(a.dtype, '?') for a in tc)
+            want = max(kinds, key='bifc'.index)
+            if kinds_out != {want}:
+                res.violation('dtype kind', dict(case, helper='typecast_arrays'), f'function.typecast_arrays of kinds {kinds} gives {sorted(kinds_out)}; the common kind is {want!r}')
+            else:
+                res.count('helpers/agree')
+        except Exception as e:
+            res.count('helpers/typecast_refused')
+
+
+def replay_helper(case):
+    import numpy
+    from nutils import function
+    shapes = [tuple(sh) for sh in case['shapes']]
+    out = []
+    try:
+        expect = tuple(numpy.broadcast_shapes(*shapes))
+    except ValueError:
+        expect = None
+    try:
+        got = tuple(function.broadcast_shapes(*shapes))
+    except Exception:
+        got = None
+    if (expect is None) != (got is None) and got is not None or (expect is not None and got is not None and got != expect):
+        out.append(dict(monitor='helper', mechanism=None, case=case, detail=f'function.broadcast_shapes{shapes} -> {got}, numpy: {expect}'))
+    return out
+
+
 def slim(prog):
     """a compact copy of a program for the evidence samples"""
     p = json.loads(json.dumps(prog, default=str))
@@ -322,6 +430,11 @@ def slim(prog):
 def replay(case):
     c07_env, c07_ops, c07_core, c07_gen = _imports()
     res = Result()
+    if 'helper' in case:
+        return replay_helper(case)
+    if 'leaf' in case:
+        env = c07_env.Env(case['env'])
+        return [dict(monitor='leaf evaluation failed', mechanism=None, case=case, detail=d) for l, d in env.failures if l == case['leaf']]
     prog = case['program']
     c = c07_gen.execute(prog, res)
     finish(c, res, case.get('key'))
@@ -356,7 +469,10 @@ def repro_multi_array():
     numpy, function = _setup()
     a = function.Argument('a', (2, 3, 4))
     v = numpy.arange(24.).reshape(2, 3, 4)
-    f = a[[0, 1], [2, 0]]
+    try:
+        f = a[[0, 1], [2, 0]]
+    except NotImplementedError as e:
+        return False, f'refused: NotImplementedError: {e}'
     return tuple(f.shape) != v[[0, 1], [2, 0]].shape, f'Argument(2,3,4)[[0,1],[2,0]].shape == {f.shape}, numpy gives {v[[0, 1], [2, 0]].shape}'
 
 
@@ -391,18 +507,29 @@ def repro_interp():
 
 def repro_matmul():
     numpy, function = _setup()
-    out = []
     try:
         f = numpy.matmul(function.Argument('p', (3, 1)), function.Argument('q', (4,)))
-        out.append(f'matmul of shapes (3,1) and (4,) builds with shape {f.shape}')
     except Exception:
-        pass
+        return False, 'matmul of shapes (3,1) and (4,) is rejected at build like numpy'
+    return True, f'matmul of shapes (3,1) and (4,) builds with shape {f.shape}; numpy raises ValueError'
+
+
+def repro_vdot():
+    numpy, function = _setup()
+    out = []
     try:
         f = numpy.vdot(function.Argument('p', (4,)), function.Argument('q', (1,)))
-        out.append(f'vdot of shapes (4,) and (1,) builds with shape {f.shape}')
+        out.append(f'vdot of shapes (4,) and (1,) builds with shape {f.shape} (numpy raises ValueError)')
     except Exception:
         pass
-    return bool(out), '; '.join(out) or 'rejected at build like numpy'
+    a, b = numpy.array([[1., 2.]]), numpy.array([[3.], [5.]])
+    try:
+        r = function.eval(numpy.vdot(function.Argument('p', (1, 2)), function.Argument('q', (2, 1))), dict(p=a, q=b))
+        if abs(r - numpy.vdot(a, b)) > 1e-12:
+            out.append(f'vdot([[1,2]], [[3],[5]]) = {float(r)}, numpy gives {float(numpy.vdot(a, b))}')
+    except Exception:
+        pass
+    return bool(out), '; '.join(out) or 'vdot flattens like numpy'
 
 
 def repro_eig():
@@ -465,7 +592,8 @@ REPRODUCERS = {
     'C07-transpose-negative-axes': repro_transpose,
     'C07-abs-bool': repro_abs_bool,
     'C07-interp-int-fp-truncates-left-right': repro_interp,
-    'C07-matmul-vdot-singleton-broadcast': repro_matmul,
+    'C07-matmul-singleton-contraction': repro_matmul,
+    'C07-vdot-broadcasts': repro_vdot,
     'C07-eig-nonsquare-accepted': repro_eig,
 }
 
@@ -483,12 +611,12 @@ def finalize(m, tier, seed):
     handled = sorted(OPS)
     verified = _sub(c, 'op_verified/')
     built = _sub(c, 'op_built/')
-    uncovered = [n for n in handled if not verified.get(n)]
+    uncovered = [n for n in handled if not verified.get(n)] + sorted(m.sets.get('handled_not_in_catalogue', ()))
     per_axes = {}
     for k, v in _sub(c, 'op_verified_env/').items():
         name, ax = k.rsplit('/', 1)
         per_axes.setdefault(name, {})[ax] = v
-    not_on_all_axes = sorted(n for n in handled if n not in uncovered and len(per_axes.get(n, {})) < 4)
+    not_on_all_axes = sorted(n for n in handled if n not in uncovered and not OPS[n].static and len(per_axes.get(n, {})) < 4)
     expected = expected_cases(tier)
     cov = dict(
         evaluations=c.get('evaluations', 0),
@@ -500,7 +628,8 @@ def finalize(m, tier, seed):
         points_compared=c.get('points_compared', 0),
         node_pass=c.get('node_pass', 0),
         marginal=c.get('marginal', 0),
-        handled_functions=len(handled),
+        handled_functions=len(m.sets.get('handled', ())),
+        catalogue=len(handled),
         per_function_verified=verified,
         per_function_per_point_axes=per_axes,
         uncovered=uncovered,
@@ -525,6 +654,7 @@ def finalize(m, tier, seed):
         rejection_by_function=_sub(c, 'reject_by_op/'),
         rejection_exception_types=sorted(m.sets.get('reject_exception_types', ())),
         hostile=_sub(c, 'hostile/'),
+        helpers=_sub(c, 'helpers/'),
         accepted_kind_differences_seen=_sub(c, 'accepted_kind_difference/'),
         accepted_differences=KIND_DIFFERENCES.table,
         documented_refusal_classes=KIND_DIFFERENCES.refusals,
@@ -555,4 +685,4 @@ def expected_cases(tier):
     from vlib.c07_ops import OPS
     from vlib.c07_env import ENV_NAMES
     from vlib.c07_gen import SHAPE_SENSITIVE, HOSTILE
-    return len(OPS) * len(ENV_NAMES) * SYS_PER[tier] + RAND[tier] + int(.5 * len(SHAPE_SENSITIVE) * REJECT_PER[tier]) + len(HOSTILE) * len(ENV_NAMES) * HOSTILE_PER[tier]
+    return 100 * HELPER_UNITS[tier] + int(len(OPS) * sum(max(1, int(round(SYS_PER[tier] * ENV_WEIGHT[e]))) for e in ENV_NAMES)) + RAND[tier] + int(.5 * len(SHAPE_SENSITIVE) * REJECT_PER[tier]) + len(HOSTILE) * len(ENV_NAMES) * HOSTILE_PER[tier]
